@@ -149,10 +149,17 @@ MUTANTS = [
      "        self._demote_all()\n        return self.demoted",
      "        self._renorm()\n        self._demote_all()\n        return "
      "self.demoted", "C08-R5"),
-    ("area skips deepest level", "AegeanTools/regions.py",
-     "        for d in range(1, self.maxdepth+1):\n            area +=",
-     "        for d in range(1, self.maxdepth):\n            area +=",
-     "C08-R6"),
+    ("area summed over levels", "AegeanTools/regions.py",
+     "        area = len(self.get_demoted()) * \\\n            "
+     "hp.nside2pixarea(2**self.maxdepth, degrees=degrees)\n",
+     "        area = 0\n        for d in range(1, self.maxdepth+1):\n"
+     "            area += len(self.pixeldict[d]) * \\\n                "
+     "hp.nside2pixarea(2**d, degrees=degrees)\n", "C08-R8"),
+    ("reg export skips deepest level", "AegeanTools/regions.py",
+     "            for d in range(1, self.maxdepth+1):\n                for p "
+     "in self.pixeldict[d]:\n                    line =",
+     "            for d in range(1, self.maxdepth):\n                for p "
+     "in self.pixeldict[d]:\n                    line =", "C08-R6"),
     ("flattening skips coarse levels", "AegeanTools/regions.py",
      "            for d in range(1, self.maxdepth):\n                for p in "
      "pd[d]:", "            for d in range(3, self.maxdepth):\n"
@@ -200,6 +207,8 @@ def run(ctx):
     r5(ctx, ci)
     # ------------------------------------------------------------- R6
     r6_levels(ctx, ci, "C08-R6")
+    # ------------------------------------------------------------- R8
+    r8(ctx, ci)
     # ------------------------------------------------------------- R7
     n = link.check(ctx, ["regions.Region." + m for m in ci.methods] +
                    ["MIMAS.combine_regions", "MIMAS.mask2mim",
@@ -824,6 +833,15 @@ def r6_levels(ctx, ci, rule):
         if fi is None:
             raise AnalysisError("Region.%s missing" % m)
         al = pixeldict_aliases(fi.node)
+        if any(isinstance(c, ast.Call) and norm(c.func) in (
+                "self.get_demoted", "self._demote_all")
+               for c in walk_no_nested(fi.node)) and not any(
+                isinstance(x, ast.Subscript) and levelset_owner(x, al)
+                for x in walk_no_nested(fi.node)):
+            cnt += 1
+            ctx.ob(rule, fi, "%s works on the flattened set" % m, True, {},
+                   fi.node)
+            continue
         for lp in walk_no_nested(fi.node):
             if not isinstance(lp, ast.For) or \
                     not isinstance(lp.target, ast.Name):
@@ -857,7 +875,48 @@ def r6_levels(ctx, ci, rule):
                           (_fmt(first), _fmt(last), _fmt(created[0]),
                            _fmt(created[1])),
                           {"first": first, "last": last}, lp)
-    ctx.floor(rule, cnt, 3, "level-enumerating loops in region consumers")
+    ctx.floor(rule, cnt, 3, "full-region consumers (level loops or flattened)")
+
+
+def r8(ctx, ci):
+    ctx.rule("C08-R8", "the area counts every patch of sky once: get_area "
+             "either works on the flattened (deepest-level) set, or every "
+             "public method that can add pixels re-normalises on all paths "
+             "before returning (otherwise the same sky can sit at two "
+             "levels and is counted twice until some query flattens it)")
+    meths, cfgs, info, builder, mutating, always_resets = classify(ci)
+    ga = ci.methods.get("get_area")
+    if ga is None:
+        raise AnalysisError("Region.get_area missing")
+    flattens = any(isinstance(c, ast.Call) and norm(c.func) in (
+        "self.get_demoted", "self._demote_all")
+        for c in walk_no_nested(ga.node))
+    if flattens:
+        ctx.ob("C08-R8", ga, "get_area counts the flattened set", True, {},
+               ga.node)
+        return
+    bad = []
+    for m, fi in meths.items():
+        if m.startswith("_") or m not in mutating or m in builder:
+            continue
+        g = cfgs[m]
+        mut_nodes, _, desc = info[m]
+        ren = [n for n, s in g.stmt.items() if g.kind[n] == "stmt" and any(
+            isinstance(x, ast.Call) and norm(x.func) == "self._renorm"
+            for x in ast.walk(s))]
+        for mn in mut_nodes:
+            p = g.path_avoiding(mn, EXIT, ren)
+            if p:
+                bad.append((m, desc.get(mn, "?"), g.describe(p)))
+                break
+    ctx.check("C08-R8", ga, "get_area sums the levels; public mutators "
+              "without re-normalisation: %s" % [b[0] for b in bad], not bad,
+              "get_area adds up the pixels of every level, but %s can leave "
+              "the same sky stored at two levels (no _renorm on the path "
+              "%s): the area is over-counted until a membership query "
+              "flattens the region, so a read-only query changes a later "
+              "answer" % ([b[0] for b in bad], bad[0][2] if bad else ""),
+              {"methods": [b[0] for b in bad]}, ga.node)
 
 
 def _fmt(ab):
